@@ -148,6 +148,20 @@ class Prop(common.PropertyCheck):
                     u = np.asarray(t.inverted().transform_non_affine(ev), dtype=float)      # data -> display (interpolated inverse)
                     du = np.diff(u)
                     out.setdefault('uniform_dev', {})[str(i)] = [float(np.max(np.abs(du - du.mean()))), float(t.M), float(t.T), float(t.W)]
+                if 3 <= len(ev) <= 400 and np.all(np.isfinite(ev)):
+                    # exact display positions: the forward function (display -> data) inverted by bisection for every edge
+                    import scipy.optimize
+                    fwd = lambda sv, target: float(t.transform_non_affine(np.array([sv], dtype=float))[0]) - target
+                    us = []
+                    for x in ev:
+                        a_, b_ = -1.0, float(t.M) + 1.0
+                        for _k in range(60):
+                            if fwd(a_, x) <= 0 <= fwd(b_, x):
+                                break
+                            a_, b_ = a_ - (b_ - a_), b_ + (b_ - a_)
+                        us.append(scipy.optimize.brentq(fwd, a_, b_, args=(float(x),), xtol=1e-13, rtol=1e-14))
+                    dus = np.diff(np.array(us))
+                    out.setdefault('uniform_exact', {})[str(i)] = [float(np.max(np.abs(dus - dus.mean()))), float(t.M), float(t.T), float(t.W), float(us[0]), float(us[-1])]
             else:
                 tms.append(None)
         out['per'] = per
@@ -222,6 +236,11 @@ class Prop(common.PropertyCheck):
                     centre = (e[k] + e[k + 1]) / 2 if scale == 'linear' else math.sqrt(e[k] * e[k + 1])
                     if abs(centre - vals[k]) > 1e-9 * max(1, abs(vals[k])):
                         return '%s scale: value %r is not at the centre %r of its bin' % (scale, vals[k], centre)
+            ux = (impl.get('uniform_exact') or {}).get(str(i))
+            # single-precision samples evaluate the logicle expressions in single precision (relative 1e-7 of the value)
+            if ux and ux[0] > (3e-6 if case.get('dt') == 'F' else 2e-8) * max(1.0, ux[1]):
+                return ('logicle edges are not the images of a uniform grid in display space (T=%r M=%r W=%r, overrides %s): the display positions of the edges, '
+                        'found by inverting the logicle function itself, are unevenly spaced by up to %r' % (ux[2], ux[1], ux[3], case['over'], ux[0]))
             ud = (impl.get('uniform_dev') or {}).get(str(i))
             if ud and ud[0] > 0.01 * ud[1]:      # the interpolated inverse itself is accurate to ~2e-3*M near zero
                 return 'logicle edges are not the images of a uniform display grid under the logicle function with the requested parameters T=%r M=%r W=%r (overrides %s): spacing deviates by %r display units' % (ud[2], ud[1], ud[3], case['over'], ud[0])
